@@ -279,6 +279,14 @@ class FacebookPhoto(FacebookParsedItem):
     @property
     def url(self):
         if self.group_id:
+            # NOTE: a photo can sit in a group and in an album at once
+            if self.album_id:
+                return urljoin(
+                    BASE_FACEBOOK_URL,
+                    "/photo.php?fbid=%s&set=g.%s&set=a.%s"
+                    % (self.id, self.group_id, self.album_id),
+                )
+
             return urljoin(
                 BASE_FACEBOOK_URL,
                 "/photo.php?fbid=%s&set=g.%s" % (self.id, self.group_id),
